@@ -22,6 +22,7 @@ import CaddyModel.C04.Values
 import CaddyModel.C04.NoPanic
 import CaddyModel.C04.Witness
 import CaddyModel.C04.Clients
+import CaddyModel.C04.GenTie
 
 namespace CaddyModel.C04
 
